@@ -103,6 +103,13 @@ def snap(task):
             'exception_detail': task.exception_detail, 'pilot': task.pilot}
 
 
+_DESCR_OPTIONS = [{}, {}, {}, {}, {}, {}, {}, {},
+                  {'restartable': True}, {'restartable': True},
+                  {'stage_on_error': True}, {'name': 'named task'},
+                  {'metadata': {'k': [1, 2]}}, {'tags': {'colocate': 'a'}},
+                  {'priority': 3}, {'cleanup': True}]
+
+
 def run_case(case, res):
 
     pm = make_pmgr()
@@ -124,6 +131,14 @@ def run_case(case, res):
         kw = {}
         if t['bind'] == 'descr':
             kw['pilot'] = t['pilot']
+        # optional description attributes (a third of the tasks carry one):
+        # none of them exempts a task from the rule
+        import zlib
+        opt = _DESCR_OPTIONS[zlib.crc32(('%s/%d' % (t['uid'],
+                             len(case['events']))).encode()) % len(_DESCR_OPTIONS)]
+        kw.update(opt)
+        for k in opt:
+            res.see('description_options', k)
         task = make_task(tm, t['uid'], **kw)
         tasks[t['uid']] = task
 
